@@ -654,6 +654,16 @@ impl<const PW: u8, const G: i8> Dev<PW, G> {
     }
 
     fn join_mode(&self) -> JoinMode {
+        // every other device is provisioned from the text forms of its identifiers (EUIs are written
+        // most significant octet first, i.e. the wire octets reversed; keys in octet order)
+        if self.creds.dev_eui[2] & 1 == 1 {
+            use core::str::FromStr;
+            let hx = |b: &[u8]| b.iter().map(|x| format!("{:02x}", x)).collect::<String>();
+            let rev = |b: &[u8]| b.iter().rev().copied().collect::<Vec<u8>>();
+            if let (Ok(deveui), Ok(appeui), Ok(appkey)) = (DevEui::from_str(&hx(&rev(&self.creds.dev_eui))), AppEui::from_str(&hx(&rev(&self.creds.app_eui))), AppKey::from_str(&hx(&self.creds.app_key))) {
+                return JoinMode::OTAA { deveui, appeui, appkey };
+            }
+        }
         JoinMode::OTAA { deveui: DevEui::from(self.creds.dev_eui), appeui: AppEui::from(self.creds.app_eui), appkey: AppKey::from(self.creds.app_key) }
     }
 
